@@ -346,8 +346,16 @@ class SNum:
         raise TypeError('symx: float() of a symbolic number')
 
     def __round__(self, n=None):
+        # round half up (CPython rounds exact halves to even: a counterexample sitting exactly on a tie may not replay)
+        if self.is_int:
+            return self
+        if n is None:
+            return SNum(z3.ToInt(self.t + z3.RealVal('1/2')), True)
+        if isinstance(n, int) and 0 <= n <= 12:
+            scale = z3.RealVal(10 ** n)
+            return SNum(z3.ToReal(z3.ToInt(self.t * scale + z3.RealVal('1/2'))) / scale, False)
         symx._ctx.unsupported('round()')
-        raise TypeError('symx: round() of a symbolic number')
+        raise TypeError('symx: round() with this precision')
 
     def __repr__(self):
         return '<sym>'
